@@ -521,7 +521,9 @@ func ruleAZDisj(p *Prog, r *Reporter) {
 			}
 		}
 		if S == nil {
-			r.Bad(pos, name, construct, "no success flag that becomes true when a query of the check returns a fact (the disjunction over the check's queries is not computed)")
+			// idiom without a flag: a satisfied query continues with the next check; exhaustion records the failure
+			ok, why := c.disjByContinue(p, inner, outer, sameLoop, errsFinal)
+			r.Check(ok, pos, name, construct, "a satisfied query skips to the next check; exhausting the queries records the failure; all checks evaluated", why)
 			continue
 		}
 		okLeaves := true
@@ -869,4 +871,67 @@ func ruleAZReintern(p *Prog, r *Reporter) {
 			r.OK(pos, name, construct, "re-interned: fromDatalogX(token symbols) then convert(authorizer symbols)")
 		}
 	}
+}
+
+// disjByContinue recognises the flag-less idiom:
+//   for checks { for queries { if satisfied { continue checks } }; errs = append(errs, ...) }
+func (c *azCtx) disjByContinue(p *Prog, inner, outer *rangeLoop, sameLoop func(*ssa.Call) bool, errsFinal ssa.Value) (bool, string) {
+	// the failure record: an append to a []error inside the outer loop, outside the inner loop
+	var app *ssa.Call
+	for b := range outer.body {
+		if inner.body[b] {
+			continue
+		}
+		for _, in := range b.Instrs {
+			if call, ok := in.(*ssa.Call); ok {
+				if bi, isB := call.Call.Value.(*ssa.Builtin); isB && bi.Name() == "append" && strings.HasSuffix(shortType(call.Type()), "[]error") {
+					app = call
+				}
+			}
+		}
+	}
+	if app == nil {
+		return false, "no success flag and no failure record: the disjunction over the check's queries is not computed"
+	}
+	if !dependsOn(errsFinal, func(x ssa.Value) bool { return x == ssa.Value(app) }) {
+		return false, "the recorded failure does not reach the errs slice whose length decides the outcome"
+	}
+	// satisfied edges leave the inner loop and must not reach the failure record within the same check
+	nSat := 0
+	for _, ex := range inner.exits() {
+		if ex.from == inner.header && ex.to == inner.doneBB {
+			continue
+		}
+		if !satGuard(p, guardsOnEdge(ex.from, ex.to), true, sameLoop) {
+			if onlyErrorReturnsFrom(ex.to) {
+				continue
+			}
+			return false, "the query loop is left on a path that is neither 'query satisfied' nor exhaustion nor an error return"
+		}
+		nSat++
+		if reachAvoiding(ex.to, app.Block(), blockSet{outer.header: true}) && ex.to != outer.header {
+			return false, "after a satisfied query the failure of the check can still be recorded"
+		}
+		if ex.to == app.Block() {
+			return false, "a satisfied query leads to the failure record"
+		}
+	}
+	if nSat == 0 {
+		return false, "no exit of the query loop is taken when a query returns a fact"
+	}
+	// exhaustion must record the failure before the next check
+	for _, latch := range outer.latches {
+		if reachAvoiding(inner.doneBB, latch, blockSet{app.Block(): true}) {
+			return false, "the queries of a check can be exhausted without recording the failure"
+		}
+	}
+	for _, ex := range outer.exits() {
+		if ex.from == outer.header && ex.to == outer.doneBB {
+			continue
+		}
+		if !onlyErrorReturnsFrom(ex.to) {
+			return false, "the loop over the checks can be left early towards a non-error continuation: remaining checks are skipped"
+		}
+	}
+	return true, ""
 }
